@@ -366,7 +366,11 @@ func PopEDNS0(m *Msg) Resource {
 }
 
 func RemoveEDNS0(m *Msg) {
-	if rr := PopEDNS0(m); rr != nil {
+	for {
+		rr := PopEDNS0(m)
+		if rr == nil {
+			return
+		}
 		ReleaseResource(rr)
 	}
 }
